@@ -85,7 +85,7 @@ func init() {
 		Rule: "grid of every reachable glf plan (17 field-name sets) x limit 1..6 (thorough: x12 chain/start variants): the correct exchanges of one Get are recorded, then every single mutation " +
 			"(drop/dup/swap/null/number element, null/missing/wrong-typed result, error member added/replacing/code 0, renumber below/above/in-range/far, break parent, change hash, item moved out of range/to another block/tx, " +
 			"item block hash changed, item dropped/duplicated/swapped, nested receipt log renamed, wrong JSON types, body truncated at k/16, non-2xx with intact body, garbage, null/empty/object bodies, swapped trace responses; thorough: sampled pairs) " +
-			"is replayed through a nocache and a caching client; whenever the caching client rejected a mutated response set, the SAME client repeats the Get against correct responses (must ask for the segment again and return the faithful result); plus one hostile Hash/Latest/poller scenario per case. Signature = (plan, mutation kind, position class, outcome class); trivial = none (every run is a Get against a mutated source).",
+			"is replayed through a nocache and a caching client; whenever the caching client rejected a mutated response set, the SAME client repeats the Get against correct responses (must ask for the segment again and return the faithful result); plus one hostile Hash/Latest/poller scenario per case; plus task-level seams: integrations with concurrency 2..4 (batch sizes the concurrency does and does not divide, short steps at the tip) are run fault-free, then once per partition request whose first block is not the step's first block with the parent hash of that block changed in the response: the step must fail and write nothing, and converge afterwards. Signature = (plan, mutation kind, position class, outcome class); trivial = none (every run is a Get against a mutated source).",
 		Assumptions: []string{
 			"faithful attachment is by NAME: an item (log/receipt/trace) that names another requested block or transaction than the request position it arrived in must be attached to the named one (or the call fails); the call is never required to fail for that alone",
 			"an item whose blockHash contradicts the header supplied for the block number it names refers to a block that is not part of the result: the call must fail (plans with headers/blocks only)",
@@ -98,14 +98,14 @@ func init() {
 			"failing is always allowed (the statement says 'either fails or'): a rejected benign mutation is only counted",
 		},
 		NCases: func(tier string) int {
-			return len(c07Hostile) + 6*len(c07Plans)*c07Variants(tier)
+			return len(c07Hostile) + 6*len(c07Plans)*c07Variants(tier) + c07TaskCases(tier)
 		},
 		Run:              c07Run,
 		CrashIsViolation: true,
 		CaseTimeoutS:     120,
 		Exhaustive:       func(string) bool { return false },
 		MinObs: func(tier string) map[string]int64 {
-			return map[string]int64{"get_calls": 20000, "must_error_runs": 8000, "accepted_faithful": 1000, "baseline_ok": 100, "hostile_calls": 30, "retries_faithful": 5000}
+			return map[string]int64{"get_calls": 20000, "must_error_runs": 8000, "accepted_faithful": 1000, "baseline_ok": 100, "hostile_calls": 30, "retries_faithful": 5000, "task_seam_rejected": 20}
 		},
 	})
 }
@@ -803,6 +803,10 @@ func c07Run(c *vk.Case) {
 	}
 	g := c.Index - len(c07Hostile)
 	nv := c07Variants(c.Tier)
+	if g >= 6*len(c07Plans)*nv {
+		c07TaskSeam(c)
+		return
+	}
 	variant := g % nv
 	g /= nv
 	planIdx := g % len(c07Plans)
